@@ -658,6 +658,14 @@ func genGhost(fset *token.FileSet, dir string, specs []*FuncSpec) ([]string, err
 			}
 		}
 	}
+	// standard packages a contract may mention although the source file does not import them
+	for _, std := range []string{"net", "bytes", "strings"} {
+		if _, have := imports[std]; !have && regexp.MustCompile(`(^|[^.\w])`+std+`\.[A-Z]`).MatchString(noStr) {
+			imports[std] = std
+			names = append(names, std)
+		}
+	}
+	sort.Strings(names)
 	for _, n := range names {
 		if n == "vc" || n == "." || n == "_" {
 			continue
